@@ -307,7 +307,8 @@ def r_nest_static(ctx: Ctx, model):
                                        "commits on its own connection while the caller's transaction is still open (a later failure of the "
                                        "caller cannot undo it)"),
                            nontrivial_key=("nest", fi.qualname, callee, node.lineno))
-    ctx.floor("nested @with_connection call sites", n, 6)
+    # (a refactoring may fold several call sites into one helper: the trace rule T-conn decides the same obligation per explored path)
+    ctx.floor("nested @with_connection call sites", n, 2)
 
 
 def _explore_task(task):
@@ -348,6 +349,8 @@ def run(ctx: Ctx):
     ctx.floor("public write operations", len(ops), 14)
     r_static(ctx, model)
     r_nest_static(ctx, model)
+    from .C08 import r_module_state
+    r_module_state(ctx, model, prop="C09", rule="S-state")
     npaths = 0
     nstat = 0
     positions = set()
